@@ -465,6 +465,81 @@ func c02r5(c *core.Ctx) {
 	if n == 0 {
 		c.Undecided("NewSetupServerController-callers", token.NoPos, "no library call site found")
 	}
+	freshState(c, ctor, "the pair-setup controller constructor")
+	// the SRP session object handed out is the one created in this invocation
+	if ns := p.Func("hap/pair", "NewSetupServerSession"); ns != nil {
+		ok, k := true, 0
+		core.Instrs(ns, func(i ssa.Instruction) {
+			r, isR := i.(*ssa.Return)
+			if !isR || core.IsNilConst(res(r)[0]) {
+				return
+			}
+			k++
+			for _, s := range core.Sources(res(r)[0]) {
+				al, isA := s.(*ssa.Alloc)
+				if !isA {
+					ok = false
+					continue
+				}
+				fresh := false
+				for _, rr := range *al.Referrers() {
+					if fa, isFa := rr.(*ssa.FieldAddr); isFa && fieldNameOf(fa) == "session" {
+						for _, r3 := range *fa.Referrers() {
+							if st, isSt := r3.(*ssa.Store); isSt {
+								if call, isC := st.Val.(*ssa.Call); isC && core.Callee(call) != nil && core.Callee(call).Name() == "NewServerSession" {
+									fresh = true
+								}
+							}
+						}
+					}
+				}
+				if !fresh {
+					ok = false
+				}
+			}
+		})
+		c.Check(ok && k > 0, "srp-session-fresh@"+fname(ns), ns.Pos(), "every session returned wraps an SRP server session created in this call", "NewSetupServerSession can return a session that was not created in this call (cached or copied): connections share SRP salt and ephemeral key")
+	}
+}
+
+// freshState: the per-connection state built by ctor (and the module functions it calls statically) does not come
+// from, and is not kept in, package-level variables.
+func freshState(c *core.Ctx, ctor *ssa.Function, what string) {
+	seen := map[*ssa.Function]bool{}
+	bad := 0
+	var walk func(f *ssa.Function)
+	walk = func(f *ssa.Function) {
+		if f == nil || seen[f] || !core.InModule(f) || f.Blocks == nil || pkgPathOf(f) == mod+"/log" {
+			return
+		}
+		seen[f] = true
+		core.InstrsDeep(f, func(g *ssa.Function, i ssa.Instruction) {
+			for _, op := range i.Operands(nil) {
+				gl, ok := (*op).(*ssa.Global)
+				if !ok || gl.Pkg == nil || !core.InModule(anyFunc(gl.Pkg)) || gl.Pkg.Pkg.Path() == mod+"/log" {
+					continue
+				}
+				t := gl.Type().(*types.Pointer).Elem()
+				switch t.Underlying().(type) {
+				case *types.Map, *types.Slice, *types.Pointer, *types.Struct, *types.Chan:
+					if types.Implements(t, errorType()) {
+						continue
+					}
+					bad++
+					c.Bad("package-state:"+gl.Name()+"@"+fname(g), i.Pos(), "%s uses the package-level variable %s: state that must be fresh per connection and exchange (SRP salt, ephemeral keys, session object) is shared between connections, so messages recorded on one connection are valid on another", what, gl.Name())
+				}
+			}
+			walk(core.Callee(i))
+		})
+	}
+	walk(ctor)
+	if bad == 0 {
+		c.OK("fresh-per-connection:"+fname(ctor), ctor.Pos(), "%s and the %d module functions it calls touch no package-level collection or pointer state", what, len(seen)-1)
+	}
+}
+
+func errorType() *types.Interface {
+	return types.Universe.Lookup("error").Type().Underlying().(*types.Interface)
 }
 
 func pkgPathOf(f *ssa.Function) string {
